@@ -185,6 +185,13 @@ func runTask(t *Task, media map[string][]byte, sched Yielder, prior map[int]*Res
 			break
 		}
 		setErr(h.CheckIntegrity())
+	case "NewFile":
+		ft, _ := strconv.Atoi(t.Arch)
+		f, err := fit.NewFile(fit.FileType(ft), fit.NewHeader(fit.V20, false))
+		setErr(err)
+		if err == nil {
+			res.Dump = dumpFile(f)
+		}
 	case "HeaderMarshalJSON":
 		m := media[t.In]
 		h, ok := headerFromBytes(m)
